@@ -113,7 +113,29 @@ class Env:
         self.servers = {'provider': self.psrv, 'consumer': self.csrv}
         self.validator = mk_validator()
         self.handler_cls = L.probe_handler_class()
-        self.line_budget = L.LineBudget([httpreader, httprequesthandler])
+        from sdc11073.httpserver import compression
+        from sdc11073.dispatch import dispatchkey, messageconverter, pathelementregistry, request as request_mod
+        from sdc11073.consumer import request_handler_deferred
+        self.line_budget = L.LineBudget([httpreader, httprequesthandler, compression, dispatchkey, messageconverter, pathelementregistry,
+                                         request_mod, request_handler_deferred])
+        # an endpoint whose server has been closed (server_close() sets dispatcher = None while handler threads of kept-alive
+        # connections may still run): the handler has explicit branches for it
+        self.closed_servers = {}
+        for role, srv in self.servers.items():
+            closed = L.FakeServer(None, srv.chunk_size, srv.supported_encodings)
+            closed.server_address = srv.server_address
+            self.closed_servers[role] = closed
+        # uncaught exceptions of library threads (a worker started by / working for request handling that dies = crash)
+        self.thread_deaths: list = []
+        self._prev_excepthook = threading.excepthook
+
+        def excepthook(args, _prev=self._prev_excepthook):
+            import traceback
+            frames = traceback.extract_tb(args.exc_traceback) if args.exc_traceback is not None else []
+            self.thread_deaths.append({'thread': getattr(args.thread, 'name', '?'), 'exc': repr(args.exc_value)[:300],
+                                       'exc_type': getattr(args.exc_type, '__name__', '?'),
+                                       'frames': [(f.filename, f.name, f.lineno) for f in frames][-8:]})
+        threading.excepthook = excepthook
         # spies (instance attributes only)
         self.mw_log: list = []
         self.tree_log: list = []
@@ -164,7 +186,7 @@ class Env:
         orig = reader.read_received_message
 
         def read_received_message(xml_text, validate=True):
-            watch = self.watch_trees and xml_text is not None and b'<!DOCTYPE' in xml_text
+            watch = self.watch_trees and xml_text is not None
             try:
                 r = orig(xml_text, validate=validate)
             except Exception:
@@ -411,6 +433,11 @@ def render(seed, xml=None, path=None, headers=None, method=None, version='HTTP/1
 # ---------------------------------------------------------------------------------------------------------------
 HUGE = ['99999999999999999999999999999999999999', '-1', '-99999999999999999999', 'NaN', '1e999', '0x10', '', ' ', 'abc', '1.5.5', '２',
         '9' * 5000, 'true', '-0', '+1', '18446744073709551616', '4294967296', '\u0000'.encode('unicode_escape').decode()]
+# hostile values of the lexical spaces the eventing / BICEPS requests carry besides plain numbers (xsd:duration | xsd:dateTime | xsd:anyURI)
+EXPIRES = ['PT0S', 'PT0.0000001S', '-PT1S', '-P1Y', 'P99999999999999999999Y', 'PT99999999999999999999999999S', 'P1000000000D', 'P1Y2M3DT4H5M6.7S',
+           'PT1e3S', 'PT', 'P', 'P1Y1Y', 'PT' + '9' * 5000 + 'S', 'PT0.' + '0' * 5000 + '1S', 'P400000000Y', 'PT1.5.5S', 'P-1Y', 'PT60S ',
+           '2039-01-01T00:00:00Z', '0001-01-01T00:00:00', '9999-12-31T23:59:59.999999Z', '1969-12-31T23:59:59Z', '2026-13-45T25:61:61',
+           '99999-01-01T00:00:00Z', '-0001-01-01T00:00:00Z', '2026-09-24T00:00:00+14:00', '2026-02-30T00:00:00Z', '', ' ', '0', '3600', 'NaN', 'INF']
 
 
 def _tree(seed):
@@ -521,16 +548,56 @@ def m_structure(rng, env, seed):
     return render(seed, xml=doc), {'mut': f's.{kind}', 'doc': doc}
 
 
-_HUGE_EXPONENTS = itertools.cycle([5000, 19, 4300, 10, 30, 4299, 18, 400])
+def m_expires(rng, env, seed, value=None, how=None):
+    """Subscribe / Renew with a hostile wse:Expires (duration or dateTime lexical space: huge, negative, zero, overflowing, malformed)."""
+    cands = [s for s in env.seeds if s['name'] in ('Subscribe', 'Renew') and b'Expires' in s['xml']]
+    if seed not in cands:
+        seed = rng.choice(cands)
+    value = rng.choice(EXPIRES) if value is None else value
+    how = how or rng.choice(['text', 'text', 'text', 'dup', 'child', 'drop'])
+    root = _tree(seed)
+    for e in _elems(root):
+        if etree.QName(e).localname == 'Expires':
+            if how == 'text':
+                e.text = value
+            elif how == 'dup':
+                e.text = value
+                e.addnext(copy.deepcopy(e))
+            elif how == 'child':
+                e.text = None
+                etree.SubElement(e, e.tag).text = value
+            else:
+                e.getparent().remove(e)
+            break
+    doc = _ser(root)
+    cls = 'datetime' if value[:1].isdigit() or value.startswith('-0') else 'duration' if value.lstrip('-').startswith('P') else 'other'
+    return render(seed, xml=doc), {'mut': f's.expires_{how}_{cls}', 'doc': doc}
 
-def m_path(rng, env, seed, kind=None):
+
+_HUGE_EXPONENTS = itertools.cycle([5000, 19, 4300, 10, 30, 4299, 18, 400])
+# number of hex digits of a chunk-size line / of bytes of a chunk header: around every limit involved (16 = old limit of the size scan, 1024 = limit of
+# the chunk header, 3571 hex digits = 4300 decimal digits = python's int -> str conversion limit, 8192 / 65536 = usual line / buffer limits)
+CHUNK_DIGITS = [1, 15, 16, 17, 255, 1000, 1021, 1022, 1023, 1024, 1025, 1500, 2048, 3000, 3570, 3571, 3572, 3600, 4000, 4299, 4300, 4301, 6000, 8000,
+                8189, 8190, 8191, 8192, 8193, 16000, 16384, 65535, 65536, 70000]
+_CHUNK_DIGITS = itertools.cycle(CHUNK_DIGITS)
+# percent-encoded octets in a request target: ASCII, latin-1, UTF-8 sequences of characters beyond U+00FF, invalid UTF-8, NUL, CR LF (+ marker
+# header: response splitting), reserved characters, broken escapes
+INJECT = 'X-Vf-Injected'
+PERCENT = ['%41', '%61bc', '%E4', '%C3%A4', '%E2%82%AC', '%C4%80', '%F0%9F%98%80', '%E9', '%FF%FE', '%C0%AF', '%ED%A0%80', '%00', '%0D%0A' + INJECT + ':%201',
+           '%0A' + INJECT + ':1', '%0D', '%2F', '%2f..%2f', '%25', '%2541', '%20', '%09', '%7F', '%3F', '%23', '%', '%G1', '%u20AC', '%E2%82', '%e2%82%ac' * 40]
+
+def m_path(rng, env, seed, kind=None, pct=None, method=None):
     p = seed['path']
     parts = p.split('/')
-    kind = kind or rng.choice(['depth_less', 'depth_more', 'unknown_first', 'double_slash', 'query', 'long', 'nonascii', 'other_service', 'root', 'star',
+    method_arg = method
+    kind = kind or rng.choice(['pct_first', 'pct_first', 'pct_in_first', 'pct_after_first', 'pct_service', 'pct_last', 'pct_query', 'pct_encoded_known',
+                               'depth_less', 'depth_more', 'unknown_first', 'double_slash', 'query', 'long', 'nonascii', 'other_service', 'root', 'star',
                        'absolute_uri', 'dots', 'get_on_post_path', 'post_on_get_path', 'query_only', 'query_only', 'control_char',
                        'malformed_uri', 'malformed_uri', 'depth_more_hostile', 'depth_more_hostile'])
     method = seed['method']
     xml = seed['xml']
+    if kind.startswith('pct_'):
+        method = method_arg
     if kind == 'depth_less':
         p = '/'.join(parts[:max(1, len(parts) - rng.randrange(1, 3))]) or '/'
     elif kind == 'depth_more':
@@ -573,6 +640,37 @@ def m_path(rng, env, seed, kind=None):
         p = rng.choice(['?wsdl', '?' + p[1:], '#x', '?'])
         if rng.random() < 0.5:
             method, xml = 'GET', b''
+    elif kind.startswith('pct_'):
+        pct = pct or rng.choice(PERCENT)
+        base = p.split('?')[0]
+        bparts = base.split('/')
+        if kind == 'pct_first':                      # unknown first element that is (or contains) a percent-encoded sequence
+            p = '/' + rng.choice(['', '', 'x']) + pct + '/' + '/'.join(bparts[2:])
+        elif kind == 'pct_in_first' and len(bparts) > 1 and bparts[1]:
+            i = rng.randrange(len(bparts[1]))
+            p = '/' + bparts[1][:i] + pct + bparts[1][i:] + '/' + '/'.join(bparts[2:])
+        elif kind == 'pct_after_first' and len(bparts) > 1:
+            p = '/' + bparts[1] + pct + '/' + '/'.join(bparts[2:])
+        elif kind == 'pct_service' and len(bparts) > 2:
+            p = '/'.join(bparts[:2] + [rng.choice([pct, bparts[2] + pct, pct + bparts[2]])] + bparts[3:])
+        elif kind == 'pct_last':
+            p = base.rstrip('/') + '/' + pct
+        elif kind == 'pct_query':
+            p = base + '?' + rng.choice(['wsdl', 'x=']) + pct
+        elif kind == 'pct_encoded_known':            # the registered names, percent-encoded (equivalent URI by RFC 3986 6.2.2.2)
+            which = rng.randrange(1, len(bparts)) if len(bparts) > 1 else 0
+            el = bparts[which]
+            i = rng.randrange(len(el)) if el else 0
+            bparts[which] = (el[:i] + '%%%02X' % ord(el[i]) + el[i + 1:]) if el and rng.random() < 0.7 else ''.join('%%%02x' % ord(c) for c in el)
+            p = '/'.join(bparts)
+        else:
+            p = '/' + pct + p
+        if method == 'GET' or (method is None and rng.random() < 0.3):
+            method, xml = 'GET', b''
+        else:
+            method = 'POST'
+            if not xml:
+                xml = rng.choice([s for s in env.seeds if s['method'] == 'POST'])['xml']
     elif kind == 'get_on_post_path':
         method, xml = 'GET', b''
     elif kind == 'post_on_get_path':
@@ -613,17 +711,52 @@ def _doctype(kind, env, token=EXPANDED.encode()):
 
 DOCTYPE_KINDS = ['internal_entity', 'external_file', 'external_url', 'param_entity', 'param_entity_url', 'external_dtd', 'external_dtd_url',
                  'billion_laughs', 'attr_default']
+# references to external resources that need no DOCTYPE (they must simply never be followed) and other transports of a DOCTYPE document
+NODOCTYPE_KINDS = ['xinclude_file', 'xinclude_url', 'schema_location', 'stylesheet_pi']
+WRAPS = ['utf16', 'gzip_chunked', 'utf8_bom']
 
 
-def m_doctype(rng, env, seed, kind=None, where=None):
-    kind = kind or rng.choice(DOCTYPE_KINDS)
+def _wrap(seed, doc, wrap):
+    if wrap == 'utf16':
+        body = re.sub(rb'^\s*<\?xml[^>]*\?>\s*', b'', doc).decode('utf-8')
+        return render(seed, xml=('<?xml version="1.0" encoding="UTF-16"?>' + body).encode('utf-16'))
+    if wrap == 'utf8_bom':
+        return render(seed, xml=b'\xef\xbb\xbf' + doc)
+    if wrap == 'gzip_chunked':
+        z = L.ref_encode('gzip', doc)
+        return L.mk_request('POST', seed['path'], list(seed['headers']) + [('Content-Encoding', 'gzip'), ('Transfer-Encoding', 'chunked')],
+                            L.ref_chunk(z, [max(1, len(z) // 3)]))
+    return render(seed, xml=doc)
+
+
+def m_doctype(rng, env, seed, kind=None, where=None, wrap=None):
+    kind = kind or rng.choice(DOCTYPE_KINDS + DOCTYPE_KINDS + NODOCTYPE_KINDS)
+    if wrap is None and rng.random() < 0.15:
+        wrap = rng.choice(WRAPS)
     seed = _post_seed(rng, env, seed)
     env.token_counter = getattr(env, 'token_counter', 0) + 1
     token = f'{EXPANDED}-{env.token_counter}-'.encode()     # unique per request: earlier accepted requests cannot pollute the verdict
-    dt, ref = _doctype(kind, env, token)
     xml = seed['xml']
     m = re.match(rb'\s*<\?xml[^>]*\?>\s*', xml)
     decl, rest = (m.group(0), xml[m.end():]) if m else (b'', xml)
+    if kind in NODOCTYPE_KINDS:
+        cdir = env.canary_dir.encode()
+        if kind in ('xinclude_file', 'xinclude_url'):
+            href = b'file://%s/canary.txt' % cdir if kind == 'xinclude_file' else b'http://127.0.0.1:%d/canary' % CANARY_PORT
+            inc = b'<xi:include xmlns:xi="http://www.w3.org/2001/XInclude" href="%s" parse="text"/>' % href
+            # where text is interpreted (MessageID is echoed as RelatesTo) and as an element of the body
+            rest = re.sub(rb'(MessageID[^>]*>)([^<]*)(<)', lambda x: x.group(1) + x.group(2) + inc + x.group(3), rest, count=1)
+            rest = re.sub(rb'(Body[^>]*>)', lambda x: x.group(1) + inc, rest, count=1)
+        elif kind == 'schema_location':
+            att = (b' xmlns:xsi="http://www.w3.org/2001/XMLSchema-instance" xsi:schemaLocation="%s http://127.0.0.1:%d/canary.xsd" '
+                   b'xsi:noNamespaceSchemaLocation="file://%s/canary.dtd"' % (S12.encode(), CANARY_PORT, cdir))
+            rest = re.sub(rb'^(<[A-Za-z0-9:_.-]+)', lambda x: x.group(1) + att, rest, count=1)
+        else:
+            decl = decl + b'<?xml-stylesheet type="text/xsl" href="file://%s/canary.dtd"?><?xml-model href="http://127.0.0.1:%d/canary.rng"?>' % (cdir, CANARY_PORT)
+        doc = decl + rest
+        return _wrap(seed, doc, wrap), {'mut': f'd.{kind}' + (f'+{wrap}' if wrap else ''), 'doc': doc, 'doctype': True, 'no_doctype': True, 'where': '-',
+                                        'token': token}
+    dt, ref = _doctype(kind, env, token)
     root_name = re.match(rb'<([A-Za-z0-9:_.-]+)', rest)
     if root_name:
         dt = dt.replace(b'<!DOCTYPE x', b'<!DOCTYPE ' + root_name.group(1), 1).replace(b'<!ATTLIST x', b'<!ATTLIST ' + root_name.group(1))
@@ -647,7 +780,7 @@ def m_doctype(rng, env, seed, kind=None, where=None):
         rest = rest.replace(b'Body>', b'Body><xi:include xmlns:xi="http://www.w3.org/2001/XInclude" href="file://%s/canary.txt" parse="text"/>' % env.canary_dir.encode(), 1) \
             if b'Body>' in rest else rest
     doc = decl + dt + rest
-    return render(seed, xml=doc), {'mut': f'd.{kind}', 'doc': doc, 'doctype': True, 'where': where, 'token': token}
+    return _wrap(seed, doc, wrap), {'mut': f'd.{kind}' + (f'+{wrap}' if wrap else ''), 'doc': doc, 'doctype': True, 'where': where, 'token': token}
 
 
 def m_encoding(rng, env, seed):
@@ -694,13 +827,14 @@ def m_encoding(rng, env, seed):
 FRAMING_KINDS = ['no_cl', 'cl_negative', 'cl_minus1', 'cl_nonnumeric', 'cl_small', 'cl_large', 'cl_dup', 'cl_and_te', 'cl_empty', 'cl_plus', 'cl_huge',
                  'chunked_ok', 'chunk_trunc_data', 'chunk_trunc_size', 'chunk_trunc_crlf', 'chunk_no_crlf', 'chunk_neg', 'chunk_overlong',
                  'chunk_ext_short', 'chunk_ext_long', 'chunk_bad_hex', 'chunk_no_last', 'chunk_only_eof', 'chunk_lf_only', 'chunk_trailer', 'chunk_huge_size',
-                 'chunk_unterminated_size', 'chunk_size_line_70k',
+                 'chunk_unterminated_size', 'chunk_size_line_70k', 'chunk_size_digits', 'chunk_size_digits', 'chunk_header_len',
+                 'no_host', 'dup_host', 'host_hostile', 'hdr_8bit', 'hdr_name_hostile', 'dup_te_ce', 'get_with_body',
                  'te_unknown', 'te_list', 'ce_unknown', 'ce_corrupt', 'ce_gzip_ok', 'ce_lz4_ok', 'ce_nobody', 'ce_upper', 'ce_truncated', 'ce_bomb',
                  'expect100', 'http10', 'http09', 'http2', 'method', 'many_headers', 'huge_header', 'pipelined', 'trunc_headers', 'conn_close',
                  'no_ct', 'weird_ct', 'bare_lf', 'header_fold', 'accept_q0', 'accept_garbage', 'lowercase_method', 'trunc_request_line']
 
 
-def m_framing(rng, env, seed, kind=None):
+def m_framing(rng, env, seed, kind=None, arg=None):
     kind = kind or rng.choice(FRAMING_KINDS)
     xml = seed['xml'] if seed['method'] == 'POST' else rng.choice([s for s in env.seeds if s['method'] == 'POST'])['xml']
     post_seed = seed if seed['method'] == 'POST' else rng.choice([s for s in env.seeds if s['method'] == 'POST' and s['role'] == seed['role']] or [seed])
@@ -772,6 +906,56 @@ def m_framing(rng, env, seed, kind=None):
         raw = req([('Transfer-Encoding', 'chunked')], rng.choice([b'1', b'a', b'0']) * rng.choice([17, 300, 70000]) + rng.choice([b'', b'\r\n' + xml + b'\r\n0\r\n\r\n']))
     elif kind == 'chunk_size_line_70k':
         raw = req([('Transfer-Encoding', 'chunked')], b'0' * 70000 + b'1\r\nX\r\n0\r\n\r\n')
+    elif kind == 'chunk_size_digits':
+        # a chunk-size line that is one long hex number (optionally + chunk extension), followed by less data than announced
+        digits, variant = arg if arg is not None else (next(_CHUNK_DIGITS), rng.randrange(6))
+        digit = [b'f', b'1', b'7', b'F', b'a', b'8'][variant % 6]
+        ext = [b'', b';name=value', b'', b' ;x', b'', b';' + b'e' * 40][variant % 6]
+        tail = [b'\r\n<x/>', b'\r\n<x/>\r\n0\r\n\r\n', b'\r\n', b'\r\n' + xml + b'\r\n0\r\n\r\n', b'', b'\r\n' + xml][variant % 6]
+        raw = req([('Transfer-Encoding', 'chunked')], digit * digits + ext + tail)
+        info['doc'] = None
+    elif kind == 'chunk_header_len':
+        # a correct chunk whose header line (size with leading zeros / extension) has a length around the limits of the header scan
+        total = arg if arg is not None else rng.choice([14, 15, 16, 17, 18, 1020, 1021, 1022, 1023, 1024, 1025, 1026, 8190, 8192, 8194])
+        size = b'%x' % n
+        if rng.random() < 0.5:
+            line = b'0' * max(0, total - len(size)) + size
+        else:
+            line = size + b';' + b'e' * max(0, total - len(size) - 1)
+        raw = req([('Transfer-Encoding', 'chunked')], line + b'\r\n' + xml + b'\r\n0\r\n\r\n')
+    elif kind == 'no_host':
+        hd = [(k, v) for k, v in hd if k.lower() != 'host']
+        raw = req([('Content-Length', str(n))], xml)
+    elif kind == 'dup_host':
+        raw = req([('Host', rng.choice(['evil.example', '127.0.0.1:1', ''])), ('Content-Length', str(n))], xml)
+    elif kind == 'host_hostile':
+        hd = [(k, v) for k, v in hd if k.lower() != 'host']
+        raw = req([('Host', rng.choice([b'\xe4\xf6', b'a b', b'[::1', b'127.0.0.1:99999999999999999999', b'x' * 5000, b'<x>&amp;"\'', b'\x01\x02', b'%0d%0a' + INJECT.encode() + b':1',
+                                       '\u20ac'.encode(), b'http://a/b?c#d', b'127.0.0.1:50001, evil'])), ('Content-Length', str(n))], xml)
+    elif kind == 'hdr_8bit':
+        name = rng.choice(['Content-Encoding', 'Transfer-Encoding', 'Accept-Encoding', 'Content-Type', 'Expect', 'Connection', 'SOAPAction'])
+        hd = [(k, v) for k, v in hd if k.lower() != name.lower()]
+        raw = req([(name, rng.choice([b'\xff', b'gzip\xa0', b'\x80chunked', '\u20ac'.encode(), b'\x00', b'=?utf-8?b?Z3ppcA==?=', b'\xb2'])), ('Content-Length', str(n))], xml)
+    elif kind == 'hdr_name_hostile':
+        raw = req([(rng.choice(['X Y', 'X\x01', '\xe4', '', 'X:', '(x)', 'Content-Length ', ' Content-Length', 'Content_Length', 'CONTENT-LENGTH']), rng.choice(['1', str(n)])),
+                   ('Content-Length', str(n))], xml)
+    elif kind == 'dup_te_ce':
+        z = L.ref_encode('gzip', xml)
+        which = rng.randrange(3)
+        if which == 0:
+            raw = req([('Transfer-Encoding', 'chunked'), ('Transfer-Encoding', 'identity')], L.ref_chunk(xml, [n]))
+        elif which == 1:
+            raw = req([('Content-Encoding', 'gzip'), ('Content-Encoding', 'identity'), ('Content-Length', str(len(z)))], z)
+        else:
+            raw = req([('Content-Encoding', 'gzip'), ('Transfer-Encoding', 'chunked')], L.ref_chunk(z, [max(1, len(z) // 3)]))
+    elif kind == 'get_with_body':
+        gets = [s for s in env.seeds if s['method'] == 'GET' and s['role'] == post_seed['role']]
+        gp = rng.choice(gets)['path'] if gets else path
+        raw = rng.choice([req([('Content-Length', str(n))], xml, method='GET', p=gp),
+                          req([('Transfer-Encoding', 'chunked')], L.ref_chunk(xml, [n]), method='GET', p=gp),
+                          req([('Content-Encoding', 'gzip'), ('Content-Length', '3')], b'abc', method='GET', p=gp)])
+        info['doc'] = None
+        info['pipelined'] = True
     elif kind == 'te_unknown':
         raw = req([('Transfer-Encoding', rng.choice(['gzip', 'identity', 'chunked ', 'x', 'CHUNKED'])), ('Content-Length', str(n))], xml)
     elif kind == 'te_list':
@@ -899,12 +1083,50 @@ def m_raw(rng, env, seed):
     return raw, info
 
 
+SEQ_KINDS = ['unknown_path_then_valid', 'fault_then_valid', 'get_body_then_valid', 'trailer_then_valid', 'dechunk_error_then_valid', 'valid_then_garbage',
+             'http10_keepalive', 'cl_short_then_valid', 'head_then_valid', 'valid_x3_close_first', 'expect_then_valid']
+
+
+def m_sequence(rng, env, seed, kind=None):
+    """Several requests on ONE connection where an earlier one is rejected / leaves the stream in a doubtful position (keep-alive handling)."""
+    kind = kind or rng.choice(SEQ_KINDS)
+    same = [s for s in env.seeds if s['role'] == seed['role']]
+    posts = [s for s in same if s['method'] == 'POST']
+    ps = seed if seed['method'] == 'POST' else rng.choice(posts)
+    valid = render(rng.choice(same))
+    hd, path, xml = list(ps['headers']), ps['path'], ps['xml']
+    n = len(xml)
+    if kind == 'unknown_path_then_valid':
+        first = L.mk_request('POST', '/nope' + path, hd + [('Content-Length', str(n))], xml)
+    elif kind == 'fault_then_valid':
+        first = L.mk_request('POST', path, hd + [('Content-Length', str(n))], xml.replace(b':Body', b':Bodx'))
+    elif kind == 'get_body_then_valid':
+        first = L.mk_request('GET', path + '/?wsdl', hd + [('Content-Length', str(n))], xml)
+    elif kind == 'trailer_then_valid':
+        first = L.mk_request('POST', path, hd + [('Transfer-Encoding', 'chunked')], b'%x\r\n' % n + xml + b'\r\n0\r\nX-Trailer: 1\r\n\r\n')
+    elif kind == 'dechunk_error_then_valid':
+        first = L.mk_request('POST', path, hd + [('Transfer-Encoding', 'chunked')], b'zz\r\n' + xml + b'\r\n0\r\n\r\n')
+    elif kind == 'valid_then_garbage':
+        first, valid = valid, rng.randbytes(rng.choice([1, 30, 3000]))
+    elif kind == 'http10_keepalive':
+        first = L.mk_request('POST', path, hd + [('Connection', 'keep-alive'), ('Content-Length', str(n))], xml, version='HTTP/1.0')
+    elif kind == 'cl_short_then_valid':
+        first = L.mk_request('POST', path, hd + [('Content-Length', str(n // 2))], xml)
+    elif kind == 'head_then_valid':
+        first = L.mk_request(rng.choice(['HEAD', 'OPTIONS', 'PUT']), path, hd + [('Content-Length', '0')], b'')
+    elif kind == 'valid_x3_close_first':
+        first = L.mk_request('POST', path, hd + [('Connection', 'close'), ('Content-Length', str(n))], xml) + valid
+    else:
+        first = L.mk_request('POST', path, hd + [('Expect', rng.choice(['100-continue', '200-ok', ''])), ('Content-Length', str(n))], xml)
+    return first + valid, {'mut': f'q.{kind}', 'doc': None, 'pipelined': True}
+
+
 def m_valid(rng, env, seed):
     fr = rng.choice(['cl', 'cl', 'chunked'])
     return render(seed, framing=fr), {'mut': 'valid', 'doc': seed['xml'], 'valid': True}
 
 
-MUTATORS = [(m_valid, 8), (m_structure, 38), (m_path, 10), (m_doctype, 8), (m_encoding, 8), (m_framing, 30), (m_raw, 12)]
+MUTATORS = [(m_valid, 8), (m_structure, 36), (m_expires, 3), (m_path, 13), (m_doctype, 8), (m_encoding, 8), (m_framing, 30), (m_sequence, 4), (m_raw, 11)]
 
 
 # ---------------------------------------------------------------------------------------------------------------
@@ -925,6 +1147,14 @@ ESCAPE_KEYS = {
     ('decompress_payload', 'RuntimeError'): ('coding.corrupt_body_escapes', 'corrupt compressed body: decoder exception leaves do_POST, no response'),
     ('decompress_payload', 'TypeError'): ('coding.no_body_escapes', 'Content-Encoding without a body: decompress(None) TypeError leaves do_POST'),
     ('get_first_path_element', 'IndexError'): ('path.empty_path_escapes', 'request target without a path (e.g. "?x"): IndexError in get_first_path_element leaves do_POST/do_GET'),
+    ('do_POST', 'UnicodeEncodeError'): ('response.status_line_not_encodable', 'text taken from the request ends up in the reason phrase of the status line and cannot be encoded (latin-1): '
+                                        'send_response raises inside the error branch, UnicodeEncodeError leaves do_POST, no response'),
+    ('_send_plain_response', 'UnicodeEncodeError'): ('response.status_line_not_encodable', 'text taken from the request ends up in the reason phrase of the status line and cannot be '
+                                                     'encoded (latin-1): send_response raises inside the error branch, UnicodeEncodeError leaves do_GET/do_POST, no response'),
+    ('do_GET', 'UnicodeEncodeError'): ('response.status_line_not_encodable', 'text taken from the request ends up in the reason phrase of the status line and cannot be encoded (latin-1): '
+                                       'UnicodeEncodeError leaves do_GET, no response'),
+    ('_read_exactly', 'ValueError'): ('framing.huge_number_escapes', 'a length (chunk size / Content-Length) with more digits than python converts to str: building the error text raises '
+                                      'ValueError instead of the framing error, it leaves do_POST, no response'),
     ('get_instance', 'InvalidPathError'): ('get.invalid_path_escapes', 'GET for an unknown first path element: InvalidPathError leaves do_GET, no response'),
 }
 
@@ -959,10 +1189,30 @@ class Plain:
     pass
 
 
+_STATUS_LINE = re.compile(rb'^HTTP/1\.[01] [1-5][0-9][0-9]( [^\r\n]*)?$')
+_FIELD = re.compile(rb"^[!#$%&'*+.^_`|~0-9A-Za-z-]+:[^\r\n]*$")
+
+
+def head_problem(written: bytes):
+    """RFC 7230 3: status-line CRLF *(header-field CRLF) CRLF.  Only the line structure is judged (a bare CR / LF or a line that is no field
+    breaks it); the characters of reason phrase and field values are not."""
+    head, sep, _ = written.partition(b'\r\n\r\n')
+    if not sep:
+        return 'no empty line after the header fields'
+    lines = head.split(b'\r\n')
+    if not _STATUS_LINE.match(lines[0]):
+        return f'status line {lines[0][:80]!r}'
+    for ln in lines[1:]:
+        if not _FIELD.match(ln):
+            return f'header line {ln[:80]!r}'
+    return None
+
+
 def run_case(env: Env, ctx, role, raw, info, seed_name):
     """Feed one connection, judge it.  Returns a shape tuple for ctx.case."""
     mut = info['mut']
-    srv = env.servers[role]
+    closed = info.get('server') == 'closed'
+    srv = env.closed_servers[role] if closed else env.servers[role]
     env.mw_log.clear()
     env.tree_log.clear()
     env.watch_trees = bool(info.get('doctype'))
@@ -1010,12 +1260,29 @@ def run_case(env: Env, ctx, role, raw, info, seed_name):
             continue
         sl = res.out[rec['start']:rec['end']]
         ps = L.parse_responses(sl, [rec['method']])
+        if closed:
+            ctx.count('monitor.closed_server_requests')
         if len(ps) != 1 or not ps[0].complete or ps[0].status is None:
-            ctx.witness(f'response.incomplete.{rec["method"]}', 'do_* returned without having written one complete HTTP response',
-                        {**detail, 'written': sl[:300], 'parse': [p.as_dict() for p in ps][:2]})
+            if closed:
+                ctx.witness(f'closed_server.no_response.{rec["method"]}', 'endpoint of a closed server (dispatcher is None): do_* returned without having written one '
+                            'complete HTTP response (status line buffered by send_response, never flushed by end_headers)',
+                            {**detail, 'written': sl[:300], 'parse': [p.as_dict() for p in ps][:2]})
+            else:
+                ctx.witness(f'response.incomplete.{rec["method"]}', 'do_* returned without having written one complete HTTP response',
+                            {**detail, 'written': sl[:300], 'parse': [p.as_dict() for p in ps][:2]})
             outcome.append('incomplete')
             continue
         p = ps[0]
+        # the head as written: status line + header fields, nothing else (text of the request echoed into it must not break the framing)
+        ctx.count('monitor.response_heads_checked')
+        bad = head_problem(sl)
+        if bad:
+            ctx.witness('response.head_malformed', 'the response head is not "status-line *(field-name: value) CRLF": ' + bad, {**detail, 'written': sl[:400]})
+            outcome.append('head')
+        if INJECT.lower().encode() in sl.partition(b'\r\n\r\n')[0].lower() and any(k.lower() == INJECT.lower() for k, _ in p.headers):
+            ctx.witness('response.header_injected', 'text from the request target / a request header became a header field of the response (CR LF reaches the '
+                        'status line or a header value: response splitting)', {**detail, 'written': sl[:400]})
+            outcome.append('injected')
         enc = p.header('content-encoding')
         try:
             p.body_plain = L.ref_decode(enc, p.body) if enc else p.body
@@ -1054,6 +1321,21 @@ def run_case(env: Env, ctx, role, raw, info, seed_name):
                         {**detail, 'exception': repr(m['exc'])[:300]})
             outcome.append('mw_escape')
             continue
+        if m['ret'] is not None and m['kind'] == 'get':
+            status, reason, body = m['ret']
+            body = body if isinstance(body, bytes) else (body or '').encode('utf-8')
+            if status < 300:
+                ctx.count('get.success_bodies_checked')
+                try:
+                    root = strict_parse(body)
+                    if etree.QName(root).localname != 'definitions':
+                        raise ValueError(f'root is {root.tag}')
+                except Exception as ex:  # noqa: BLE001
+                    ctx.witness('get.success_body_invalid', f'GET answered {status} with a body that is not a well-formed WSDL document: {ex!r}'[:300],
+                                {**detail, 'body': body[:300]})
+            else:
+                ctx.count('get.errors_not_judged')   # (no SOAP request, no SOAP fault: status + text are the transport's answer)
+            continue
         if m['ret'] is None or m['kind'] != 'post':   # (None: aborted by the step budget)
             continue
         status, reason, body = m['ret']
@@ -1081,6 +1363,13 @@ def run_case(env: Env, ctx, role, raw, info, seed_name):
                 ctx.witness('soap.success_body_invalid', f'status {status} with a body that is not a schema-valid envelope: {ex!r}'[:300],
                             {**detail, 'body': body[:600]})
     # what was written must be what the SOAP layer returned
+    gets = [m for m in mw if m['kind'] == 'get' and m['ret'] is not None]
+    if len(gets) == len(plain_bodies) == len(mw) == 1 and len(entered) == 1 and entered[0]['method'] == 'GET':
+        body = gets[0]['ret'][2]
+        body = body if isinstance(body, bytes) else (body or '').encode('utf-8')
+        ctx.count('get.wire_compared')
+        if plain_bodies[0].status != gets[0]['ret'][0] or plain_bodies[0].body_plain != body:
+            ctx.witness('response.differs_from_soap_layer', 'status/body on the wire differ from what the SOAP layer returned', detail)
     posts = [m for m in mw if m['kind'] == 'post' and m['ret'] is not None]
     if len(posts) == len(plain_bodies) == 1 and entered and entered[0]['method'] == 'POST':
         body = posts[0]['ret'][2]
@@ -1147,6 +1436,16 @@ def run_case(env: Env, ctx, role, raw, info, seed_name):
                     ctx.count('xxe.tree_walk_failed')
     # ---- (8) rejected => nothing changed
     settled = env.quiesce(plain_bodies)
+    ctx.count('monitor.thread_deaths_checked')
+    while env.thread_deaths:
+        td = env.thread_deaths.pop(0)
+        lib = [f for f in td['frames'] if '/sdc11073/' in f[0]]
+        if not lib:
+            ctx.count('thread.uncaught_exception_outside_library')
+            continue
+        tname = re.sub(r'[^A-Za-z_]+', '', td['thread'])[:30] or 'thread'
+        ctx.witness(f'thread.uncaught_exception.{tname}.{lib[-1][1]}.{td["exc_type"]}', 'an exception escaped a thread of the library that works for request handling '
+                    '(the thread is dead now): ' + td['exc'], {**detail, 'thread': td['thread'], 'frames': [f'{f[1]}:{f[2]}' for f in td['frames']]})
     after = env.snapshot()
     env.last_snap = after if settled else None
     rejected = (not plain_bodies) or all(p.status >= 400 or contains_fault(p.body_plain) for p in plain_bodies)
@@ -1203,14 +1502,94 @@ def _directed(env, rng):
                 out.append((s, lambda r, e, sd, k=k: m_path(r, e, sd, k)))
     for s in env.seeds:
         out.append((s, m_valid))
+    out += _directed_deep(env)
     return out
 
 
-def fuzz(ctx: core.Ctx, env: Env, rng, n, directed=True, mutators=None):
+def _directed_xxe(env):
+    """Everything that references an external resource / declares an entity, for the worker that runs under strace."""
+    out = []
+    post = {}
+    for s in env.seeds:
+        if s['method'] == 'POST':
+            post.setdefault(s['role'], s)
+    for role, s in sorted(post.items()):
+        for k in DOCTYPE_KINDS + NODOCTYPE_KINDS:
+            out.append((s, lambda r, e, sd, k=k: m_doctype(r, e, sd, k, wrap='')))
+            out.append((s, lambda r, e, sd, k=k: m_doctype(r, e, sd, k, wrap=WRAPS[len(k) % len(WRAPS)])))
+    done = set()
+    for s in env.seeds:
+        if s['method'] == 'POST' and re.search(rb'( Handle="|DescriptorHandle="|Dialect=")', s['xml']) and (s['role'], s['name']) not in done:
+            done.add((s['role'], s['name']))
+            for k, w in (('internal_entity', 'attr'), ('billion_laughs', 'attr'), ('external_file', 'attr'), ('internal_entity', 'text'), ('external_file', 'MessageID'),
+                         ('param_entity', 'text')):
+                out.append((s, lambda r, e, sd, k=k, w=w: m_doctype(r, e, sd, k, w, wrap='')))
+    return out
+
+
+def m_closed_server(rng, env, seed, method='POST'):
+    """A request to the endpoint of a server that has been closed (dispatcher is None)."""
+    if method == 'GET':
+        raw = L.mk_request('GET', seed['path'].split('?')[0] + '/?wsdl', list(seed['headers']), b'')
+    else:
+        raw = render(seed)
+    return raw, {'mut': f'c.closed_{method}', 'doc': None, 'server': 'closed'}
+
+
+def _directed_deep(env):
+    """Round 4: ladders over the limits of the framing numbers, percent-encoded request targets, hostile Expires, request sequences on one
+    connection, closed server, references to external resources without DOCTYPE."""
+    out = []
+    post, get = {}, {}
+    for s in env.seeds:
+        (post if s['method'] == 'POST' else get).setdefault(s['role'], s)
+    roles = sorted(post)
+    # every rung of the chunk-size ladder, alternating endpoint and variant (the reader is the same code for both endpoints)
+    for i, d in enumerate(CHUNK_DIGITS):
+        for v in (0, 1):
+            s = post[roles[(i + v) % len(roles)]]
+            out.append((s, lambda r, e, sd, d=d, v=v, i=i: m_framing(r, e, sd, 'chunk_size_digits', (d, v if i % 2 == 0 else v + 2))))
+    for i, total in enumerate([15, 16, 17, 1021, 1022, 1023, 1024, 1025, 8191, 8192, 8193]):
+        out.append((post[roles[i % len(roles)]], lambda r, e, sd, t=total: m_framing(r, e, sd, 'chunk_header_len', t)))
+    for role in roles:
+        s = post[role]
+        for k in ('no_host', 'dup_host', 'host_hostile', 'hdr_8bit', 'hdr_8bit', 'hdr_name_hostile', 'dup_te_ce', 'get_with_body'):
+            out.append((s, lambda r, e, sd, k=k: m_framing(r, e, sd, k)))
+        # percent-encoded sequences: as unknown first element with POST and GET (every sequence), at the other positions (some)
+        for j, pct in enumerate(PERCENT):
+            for method in (('POST', 'GET') if role == roles[-1] or j % 3 == 0 else ('POST',) if j % 2 else ('GET',)):
+                out.append((s, lambda r, e, sd, pct=pct, m=method: m_path(r, e, sd, 'pct_first', pct, m)))
+            k = ('pct_in_first', 'pct_after_first', 'pct_service', 'pct_last', 'pct_query')[j % 5]
+            out.append((s, lambda r, e, sd, pct=pct, k=k, m=('POST', 'GET')[j % 2]: m_path(r, e, sd, k, pct, m)))
+        for _ in range(3):
+            out.append((s, lambda r, e, sd: m_path(r, e, sd, 'pct_encoded_known')))
+        for k in SEQ_KINDS:
+            out.append((s, lambda r, e, sd, k=k: m_sequence(r, e, sd, k)))
+        for method in ('POST', 'GET'):
+            out.append((s, lambda r, e, sd, m=method: m_closed_server(r, e, sd, m)))
+        for k in NODOCTYPE_KINDS:
+            out.append((s, lambda r, e, sd, k=k: m_doctype(r, e, sd, k, wrap='')))
+        for k, w in (('internal_entity', 'utf16'), ('external_file', 'gzip_chunked'), ('external_dtd', 'utf8_bom'), ('xinclude_file', 'gzip_chunked'),
+                     ('billion_laughs', 'utf16')):
+            out.append((s, lambda r, e, sd, k=k, w=w: m_doctype(r, e, sd, k, wrap=w)))
+    for s in env.seeds:
+        if s['name'] in ('Subscribe', 'Renew') and b'Expires' in s['xml'] and (s['name'], 'x') not in post:
+            post[(s['name'], 'x')] = s
+            for v in EXPIRES:
+                out.append((s, lambda r, e, sd, v=v: m_expires(r, e, sd, v, 'text')))
+            for how in ('dup', 'child', 'drop'):
+                out.append((s, lambda r, e, sd, how=how: m_expires(r, e, sd, 'PT60S', how)))
+    return out
+
+
+def fuzz(ctx: core.Ctx, env: Env, rng, n, directed=True, mutators=None, extra_random=30):
     seeds = env.seeds
-    todo = _directed(env, rng) if directed else []
+    todo = (directed(env) if callable(directed) else _directed(env, rng)) if directed else []
     mutators = mutators or MUTATORS
     t_end = time.time() + 1400
+    ctx.count('directed.cases', len(todo))
+    if todo:
+        n = max(n, len(todo) + extra_random)    # every directed case is executed, whatever n
     for i in range(n):
         if i < len(todo):
             seed, fn = todo[i]
@@ -1285,7 +1664,7 @@ def w_xxe_inner(ctx: core.Ctx, arg):
     except OSError:
         pass
     s.close()
-    fuzz(ctx, env, rng, arg['n'], directed=True, mutators=[(m_doctype, 1)])
+    fuzz(ctx, env, rng, arg['n'], directed=_directed_xxe, mutators=[(m_doctype, 1)], extra_random=40)
 
 
 def w_xxe(ctx: core.Ctx, arg):
